@@ -26,6 +26,36 @@ def isRestart : Ev ℝ → Bool
 /-- pointwise sum of two tallies -/
 noncomputable def tadd (a b : List Int × List ℝ) : List Int × List ℝ := (vaddI a.1 b.1, vadd a.2 b.2)
 
+/-! bridges from the hypotheses in the statements to the raw forms used by the lemmas -/
+private theorem ok_raw {n nb : Nat} {evs : List (Ev ℝ)} (hok : ∀ e ∈ evs, EvOk n nb e) :
+    ∀ v b f, Ev.sample v b f ∈ evs → v < n ∧ b < nb := fun _ _ _ h => hok _ h
+
+private theorem nr_raw {evs : List (Ev ℝ)} (hnr : ∀ e ∈ evs, isRestart e = false) : ∀ v, Ev.restart v ∉ evs :=
+  fun v h => by simpa [isRestart] using hnr _ h
+
+private theorem smp_raw {evs : List (Ev ℝ)} (hs : ∀ e ∈ evs, isSample e = true) :
+    ∀ e ∈ evs, ∃ v b f, e = Ev.sample v b f := by
+  intro e he
+  have := hs e he
+  cases e with
+  | sample v b f => exact ⟨v, b, f, rfl⟩
+  | exchange => simp [isSample] at this
+  | restart v => simp [isSample] at this
+
+/-- the state after a history without restarts followed by an exchange -/
+private theorem after_exchange (n nb : Nat) (evs : List (Ev ℝ)) (hok : ∀ e ∈ evs, EvOk n nb e)
+    (hnr : ∀ e ∈ evs, isRestart e = false) :
+    ∃ L : Nat → C14L.G, C14L.ShInv n nb (run (initAll n nb) (evs ++ [.exchange]))
+      (C14L.GS (samplesOf none evs)) 0 L ∧ ∀ k, L k = C14L.GS (samplesOf (some k) evs) := by
+  obtain ⟨C, P, L, hinv, hown, hC⟩ := C14L.main_inv n nb evs (ok_raw hok) (nr_raw hnr)
+  have h : C14L.ShInv n nb (run (initAll n nb) (evs ++ [.exchange])) (C + ∑ k ∈ Finset.range n, P k) 0
+      (fun k => L k + P k) := by
+    rw [C14L.run_snoc]; exact C14L.inv_exchange hinv
+  refine ⟨_, ?_, hown⟩
+  convert h using 1
+  rw [hC, ← Finset.sum_add_distrib, ← C14L.sum_own n nb evs (ok_raw hok)]
+  exact (Finset.sum_congr rfl fun k _ => hown k).symm
+
 /-! ## shared ABF -/
 
 /-- **union, each once**: after any history without restarts that ends with an exchange, the grids every walker uses
@@ -33,7 +63,15 @@ noncomputable def tadd (a b : List Int × List ℝ) : List Int × List ℝ := (v
 theorem exchange_union (n nb : Nat) (evs : List (Ev ℝ)) (hok : ∀ e ∈ evs, EvOk n nb e)
     (hnr : ∀ e ∈ evs, isRestart e = false) :
     ∀ w ∈ run (initAll n nb) (evs ++ [.exchange]), (w.samples, w.grad) = tally nb (samplesOf none evs) := by
-  sorry
+  obtain ⟨L, hinv, _⟩ := after_exchange n nb evs hok hnr
+  intro w hw
+  obtain ⟨k, hk⟩ := List.mem_iff_getElem?.1 hw
+  have wf := hinv.wf k w hk
+  have hc := hinv.hcur k w hk
+  have ht := C14L.tally_spec nb (samplesOf none evs) (C14L.samplesOf_bins n nb none evs (ok_raw hok))
+  apply C14L.view_ext (wf.h1.trans ht.1.symm) (wf.h2.trans ht.2.1.symm)
+  rw [ht.2.2]
+  simpa [C14L.cur] using hc
 
 /-- **each walker's own contribution stays recoverable**: after the same histories the local grids of walker `k` hold
     exactly what walker `k` sampled itself -/
@@ -41,7 +79,15 @@ theorem own_contribution (n nb : Nat) (evs : List (Ev ℝ)) (hok : ∀ e ∈ evs
     (hnr : ∀ e ∈ evs, isRestart e = false) (k : Nat) (hk : k < n) :
     ∀ w, (run (initAll n nb) (evs ++ [.exchange]))[k]? = some w →
       (w.locS, w.locG) = tally nb (samplesOf (some k) evs) := by
-  sorry
+  have _ := hk  -- not needed: for `k ≥ n` there is no such walker
+  obtain ⟨L, hinv, hL⟩ := after_exchange n nb evs hok hnr
+  intro w hw
+  have wf := hinv.wf k w hw
+  have hc := hinv.hloc k w hw
+  have ht := C14L.tally_spec nb (samplesOf (some k) evs) (C14L.samplesOf_bins n nb (some k) evs (ok_raw hok))
+  apply C14L.view_ext (wf.h5.trans ht.1.symm) (wf.h6.trans ht.2.1.symm)
+  rw [ht.2.2, ← hL k]
+  exact hc
 
 /-- between exchanges a walker uses the union as of the last exchange plus what it has sampled itself since -/
 theorem between_exchanges (n nb : Nat) (evs₁ evs₂ : List (Ev ℝ)) (hok₁ : ∀ e ∈ evs₁, EvOk n nb e)
@@ -49,30 +95,58 @@ theorem between_exchanges (n nb : Nat) (evs₁ evs₂ : List (Ev ℝ)) (hok₁ :
     (hs₂ : ∀ e ∈ evs₂, isSample e = true) (k : Nat) (hk : k < n) :
     ∀ w, (run (initAll n nb) (evs₁ ++ [.exchange] ++ evs₂))[k]? = some w →
       (w.samples, w.grad) = tadd (tally nb (samplesOf none evs₁)) (tally nb (samplesOf (some k) evs₂)) := by
-  sorry
+  have _ := hk  -- not needed: for `k ≥ n` there is no such walker
+  obtain ⟨L, hinv, _⟩ := after_exchange n nb evs₁ hok₁ hnr
+  have hinv₂ := C14L.samples_inv n nb _ _ _ _ hinv evs₂ (ok_raw hok₂) (smp_raw hs₂)
+  rw [← C14L.run_append] at hinv₂
+  intro w hw
+  have wf := hinv₂.wf k w hw
+  have hc := hinv₂.hcur k w hw
+  have ht₁ := C14L.tally_spec nb (samplesOf none evs₁) (C14L.samplesOf_bins n nb none evs₁ (ok_raw hok₁))
+  have ht₂ := C14L.tally_spec nb (samplesOf (some k) evs₂) (C14L.samplesOf_bins n nb (some k) evs₂ (ok_raw hok₂))
+  -- `tadd` is written with `Cv.vadd` (CvModel/Value.lean), the same `zipWith` as `Cv.Shared.vadd`
+  show (w.samples, w.grad) = (vaddI (tally nb (samplesOf none evs₁)).1 (tally nb (samplesOf (some k) evs₂)).1,
+    Shared.vadd (tally nb (samplesOf none evs₁)).2 (tally nb (samplesOf (some k) evs₂)).2)
+  apply C14L.view_ext
+  · simp [vaddI, wf.h1, ht₁.1, ht₂.1]
+  · simp [Shared.vadd, wf.h2, ht₁.2.1, ht₂.2.1]
+  · rw [C14L.view_vadd (ht₁.1.trans ht₂.1.symm) (ht₁.2.1.trans ht₂.2.1.symm), ht₁.2.2, ht₂.2.2]
+    simpa [C14L.cur] using hc
 
 /-- the order in which the walkers' steps are interleaved between two exchanges does not matter -/
 theorem interleaving_irrelevant (n nb : Nat) (pre evs evs' : List (Ev ℝ)) (hp : evs.Perm evs')
     (hokp : ∀ e ∈ pre, EvOk n nb e) (hok : ∀ e ∈ evs, EvOk n nb e)
     (hnrp : ∀ e ∈ pre, isRestart e = false) (hs : ∀ e ∈ evs, isSample e = true) :
     run (initAll n nb) (pre ++ evs ++ [.exchange]) = run (initAll n nb) (pre ++ evs' ++ [.exchange]) := by
-  sorry
+  -- sample events commute as state transformers, whatever the state: the other hypotheses are not needed
+  have _ := hokp; have _ := hok; have _ := hnrp
+  rw [List.append_assoc, List.append_assoc, C14L.run_append, C14L.run_append _ pre, C14L.run_append,
+    C14L.run_append _ evs', C14L.run_perm _ evs evs' hp (smp_raw hs)]
 
 /-- a walker resumed with nothing pending (its grids equal the snapshot of the last exchange) is unchanged -/
 theorem restart_nothing_pending (w : Walker ℝ) (hS : w.lastS = w.samples) (hG : w.lastG = w.grad) : w.restart = w := by
-  sorry
+  cases w
+  simp only [Walker.restart] at *
+  subst hS hG
+  rfl
 
 /-- hence a stop / resume immediately after an exchange changes nothing, whatever follows -/
 theorem restart_at_boundary_harmless (ws : List (Walker ℝ)) (k : Nat) (rest : List (Ev ℝ)) :
     run ws ([.exchange, .restart k] ++ rest) = run ws ([.exchange] ++ rest) := by
-  sorry
+  rw [C14L.run_append, C14L.run_append ws [.exchange]]
+  congr 1
+  show apply (apply ws .exchange) (.restart k) = apply ws .exchange
+  exact C14L.exchange_restart ws k
 
 /-- the boundary is sharp: with a sample pending at the stop, the resumed walker's own contribution misses it
     (the behaviour of the code, recorded as a known finding) -/
 theorem restart_pending_loses :
     ∃ (evs : List (Ev ℝ)) (w : Walker ℝ),
       (run (initAll 2 1) evs)[0]? = some w ∧ (w.locS, w.locG) ≠ tally 1 (samplesOf (some 0) evs) := by
-  sorry
+  refine ⟨[.sample 0 0 1, .restart 0, .exchange], _, rfl, ?_⟩
+  intro h
+  have := congrArg Prod.fst h
+  simp [Walker.init, Walker.sample, Walker.restart, Walker.deltaS, vaddI, vsubI, tally, samplesOf] at this
 
 /-! ## multiple-walker metadynamics: the mirror of a peer's hills file -/
 
@@ -86,23 +160,56 @@ def Growing {H : Type} : List (List H × Nat) → Prop
   | [_] => True
   | a :: b :: r => a.1 <+: b.1 ∧ Growing (b :: r)
 
+private theorem reads_snoc {H : Type} (m : Mirror H) (l : List (List H × Nat)) (x : List H × Nat) :
+    reads m (l ++ [x]) = (reads m l).read x.1 x.2 := by
+  simp [reads, List.foldl_append]
+
+private theorem growing_snoc {H : Type} (l : List (List H × Nat)) (a b : List H × Nat)
+    (hg : Growing (l ++ [a] ++ [b])) : Growing (l ++ [a]) ∧ a.1 <+: b.1 := by
+  induction l with
+  | nil => exact ⟨trivial, hg.1⟩
+  | cons x l ih =>
+    cases l with
+    | nil => exact ⟨⟨hg.1, trivial⟩, hg.2.1⟩
+    | cons y l =>
+      have := ih hg.2
+      exact ⟨⟨hg.1, this.1⟩, this.2⟩
+
+private theorem mirror_inv {H : Type} (l : List (List H × Nat)) (last : List H × Nat) (hg : Growing (l ++ [last])) :
+    (reads { pos := 0, hills := [] } (l ++ [last])).hills
+      = last.1.take (reads { pos := 0, hills := [] } (l ++ [last])).pos ∧
+    (reads { pos := 0, hills := [] } (l ++ [last])).pos ≤ last.1.length := by
+  induction l using List.reverseRecOn generalizing last with
+  | nil =>
+    rw [reads_snoc]
+    exact C14L.read_inv _ [] last.1 last.2 (by simp [reads]) (by simp [reads]) List.nil_prefix
+  | append_singleton l prev ih =>
+    have hg' := growing_snoc l prev last hg
+    have := ih prev hg'.1
+    rw [reads_snoc]
+    exact C14L.read_inv _ prev.1 last.1 last.2 this.1 this.2 hg'.2
+
 /-- **each hill once, in order, nothing invented**: whatever the read schedule and however many records were complete
     at each read, the mirror holds exactly the first `pos` hills of the peer's file -/
 theorem mirror_is_prefix {H : Type} (l : List (List H × Nat)) (last : List H × Nat) (hg : Growing (l ++ [last])) :
     let m := reads { pos := 0, hills := [] } (l ++ [last])
     m.hills = last.1.take m.pos ∧ m.pos ≤ last.1.length := by
-  sorry
+  exact mirror_inv l last hg
 
 /-- after a read that finds the file complete the mirror holds the whole file -/
 theorem mirror_complete {H : Type} (l : List (List H × Nat)) (file : List H) (hg : Growing (l ++ [(file, file.length)])) :
     (reads { pos := 0, hills := [] } (l ++ [(file, file.length)])).hills = file := by
-  sorry
+  have h := mirror_inv l (file, file.length) hg
+  have hge : file.length ≤ (reads { pos := 0, hills := [] } (l ++ [(file, file.length)])).pos := by
+    rw [reads_snoc]
+    simpa using C14L.read_pos_ge (reads { pos := 0, hills := [] } l) file file.length
+  rw [h.1, List.take_of_length_le hge]
 
 /-- a partially written record is never consumed: nothing beyond the complete records enters the mirror -/
 theorem mirror_ignores_partial {H : Type} (m : Mirror H) (file : List H) (complete : Nat) :
     (m.read file complete).pos ≤ max m.pos (min complete file.length) ∧
     (m.read file complete).hills.length = m.hills.length + ((m.read file complete).pos - m.pos) := by
-  sorry
+  exact C14L.read_partial m file complete
 
 /-! ## non-vacuity -/
 example : EvOk 2 3 (.sample 1 2 0.5) := by unfold EvOk; omega
